@@ -49,6 +49,10 @@ func refRoute(cfg ClientCfg, serial uint32) (string, string) {
 }
 
 func c17(c *Ctx) {
+	if c.Mode == "loopback" {
+		c17Loopback(c)
+		return
+	}
 	c.Res.Rule = "random histories of {construct a client from caller-owned data, mutate the caller's device list / door-name slices / the map returned by DeviceList, call operations, overwrite every buffer the transport delivered, compare}: the recorded (transport method, address) of every call must equal the route of the ORIGINAL configuration, argument snapshots (cards, profiles, tasks, maps, IPs, passcode lists) must be unchanged by a call, result snapshots must survive buffer reuse, clones must be equal and disjoint; distinct = distinct (step kind, operation, mutation kind) keys x configurations"
 	r := c.Rng("main")
 	var caseNo int64
